@@ -615,6 +615,11 @@ def check(ctx):
     try:
         from rules import derive_rules
         derive_rules.rule_wiring(ctx, "R5")
+        # the keyframes the splitter sees are the ones the user built: position, per-field values and easing as given
+        # (generated keyframe builder + Keyframe::new; C17/G1-G3, G8)
+        for s_ in derive_rules.collect(ctx):
+            if not s_.sibling:
+                derive_rules.rule_keyframe_api(ctx, s_)
     except ImportError:
         ctx.notes.append("R5 (derive wiring) not built yet")
     ctx.notes.append("not decided: that the index arithmetic is right for every keyframe set (an inductive numeric fact "
